@@ -20,7 +20,7 @@ from typing import Any, Dict, List, Optional, Tuple
 
 from ..core import Ctx, MachineryError, chunks, tla
 
-KINDS = ["docstr", "def", "adef", "cm", "sm", "prop", "setter", "class", "exc", "assign", "oldcm", "oldsm", "if", "ifmain", "try", "with", "for", "while", "mivar", "mivard", "del"]
+KINDS = ["docstr", "def", "adef", "cm", "sm", "prop", "setter", "class", "exc", "assign", "oldcm", "oldsm", "if", "ifmain", "try", "with", "for", "while", "mivar", "mivard", "del", "ifelse", "tryelse", "tryexcept", "finally", "forelse"]
 CFG = """SPECIFICATION Spec
 CONSTANTS MaxN = {maxn}
   Names = {names}
@@ -28,6 +28,7 @@ CONSTANTS MaxN = {maxn}
 CONSTRAINT Emit
 """
 DEFK = {"def", "adef", "cm", "sm", "prop", "setter"}
+ELSEK = {"ifelse", "tryelse", "tryexcept", "finally", "forelse"}
 
 
 # ------------------------------------------------------------------------------------------ rendering
@@ -101,6 +102,17 @@ def render(p: Dict[str, Any]) -> str:
             out.append(f"{sp}    self.{name} = {literal(i)}")
             if k == "mivard":
                 out.append(f"{sp}    '''adoc:{i}'''")
+            return
+        elif k in ELSEK:
+            # the children stand in the branch that is NOT the body of the statement (and runs when the module is imported)
+            head = {"ifelse": ["if False:", "    pass", "else:"], "tryelse": ["try:", "    pass", "except ImportError:", "    pass", "else:"],
+                    "tryexcept": ["try:", "    raise ImportError('x')", "except ImportError:"], "finally": ["try:", "    pass", "finally:"],
+                    "forelse": ["for _i in ():", "    pass", "else:"]}[k]
+            out.extend(sp + h for h in head)
+            if not kids[i]:
+                out.append(sp + "    pass")
+            for c in kids[i]:
+                emit(c, ind + 1)
             return
         else:
             out.append(sp + {"if": ["if True:", "if 1 == 1:", "if __name__ != '__main__':", "if __name__ == 'm' or True:"][i % 4],
@@ -396,6 +408,38 @@ def kf_del_ignored(w: Dict[str, Any]) -> bool:
     return bool(deleted)
 
 
+def kf_else_branches(w: Dict[str, Any]) -> bool:
+    """Known finding: the builder walks the `body` of if / try / for / while statements only (astutils.NodeVisitor.get_children):
+    what is defined in an else branch, an except handler or a finally block is not seen, although these blocks run when the module is
+    imported.  Matches only when EVERY difference disappears once the statements in such blocks are taken out of the program on
+    Python's side: the documented object is the definition that wins among the statements OUTSIDE such blocks (or nothing), and what
+    Python binds instead stands inside one."""
+    p = w["program"]
+    if not w["diff"] or not (set(p["kind"]) & ELSEK):
+        return False
+    parent, kind = p["parent"], p["kind"]
+
+    def in_else(i: Optional[int]) -> bool:
+        while i:
+            if kind[i - 1] in ELSEK:
+                return True
+            i = parent[i - 1]
+        return False
+    for d in w["diff"]:
+        exp, got = d.get("expected"), d.get("got")
+        if d.get("what") == "attribute docstring":
+            return False
+        if d["scope"] and in_else(d["scope"]):
+            if got is None:
+                continue                      # a namespace that only exists for Python: the class stands in such a block
+            return False
+        if exp is None or not in_else(exp.get("node")):
+            return False                      # Python's binding does not come from such a block: not this finding
+        if got is not None and (got.get("node") is None or in_else(got["node"])):
+            return False
+    return True
+
+
 def kf_adoc_not_adjacent(w: Dict[str, Any]) -> bool:
     """Known finding: ASTBuilder.currentAttr survives flow statements, `pass`, imports and property definitions, so a bare
     string that does NOT immediately follow the assignment still documents the variable, and a string after a property
@@ -423,6 +467,7 @@ def run(ctx: Ctx) -> int:
     ctx.register_matcher("assignment-after-definition-ignored", kf_assign_after_def)
     ctx.register_matcher("property-setter-documented-as-extra-member", kf_setter_member)
     ctx.register_matcher("del-statement-not-seen", kf_del_ignored)
+    ctx.register_matcher("else-except-finally-blocks-not-walked", kf_else_branches)
     maxn = 2 if ctx.quick else 3
     names = ["a", "b"]
     r = ctx.tlc("Builder", CFG.format(maxn=maxn, names=tla(set(names)), kinds=tla(set(KINDS))), workers="auto", check=True,
@@ -443,6 +488,10 @@ def run(ctx: Ctx) -> int:
         # names unbound again by `del`
         r3d = ctx.tlc("Builder", CFG.format(maxn=3, names=tla({"a", "b"}), kinds=tla({"class", "assign", "del", "docstr"})), workers="auto", check=True, timeout=3000)
         progs = progs + [p for p in r3d.printed if "del" in p["kind"]]
+        # blocks that run but are not the body of their statement: else / except / finally
+        r3e = ctx.tlc("Builder", CFG.format(maxn=3, names=tla({"a", "b"}), kinds=tla({"class", "def", "assign", "ifelse", "tryelse", "tryexcept", "finally", "forelse"})),
+                      workers="auto", check=True, timeout=3000)
+        progs = progs + [p for p in r3e.printed if set(p["kind"]) & ELSEK]
         r4i = ctx.tlc("Builder", CFG.format(maxn=4, names=tla({"a"}), kinds=tla({"class", "def", "assign", "prop", "mivar", "mivard"})), workers="auto", check=True, timeout=3000)
         progs = progs + [p for p in r4i.printed if any(k in ("mivar", "mivard") for k in p["kind"])]
     else:
@@ -452,6 +501,9 @@ def run(ctx: Ctx) -> int:
         progs = progs + [p for p in r4.printed if p["n"] == 4]
         r4d = ctx.tlc("Builder", CFG.format(maxn=4, names=tla({"a", "b"}), kinds=tla({"class", "def", "assign", "del", "docstr", "if"})), workers="auto", check=True, timeout=6000)
         progs = progs + [p for p in r4d.printed if "del" in p["kind"]]
+        r4e = ctx.tlc("Builder", CFG.format(maxn=4, names=tla({"a", "b"}), kinds=tla({"class", "def", "assign", "docstr", "if", "ifelse", "tryexcept", "finally"})),
+                      workers="auto", check=True, timeout=6000)
+        progs = progs + [p for p in r4e.printed if set(p["kind"]) & ELSEK]
         r5i = ctx.tlc("Builder", CFG.format(maxn=5, names=tla({"a"}), kinds=tla({"class", "def", "assign", "prop", "setter", "docstr", "mivar", "mivard"})), workers="auto", check=True, timeout=6000)
         progs = progs + [p for p in r5i.printed if any(k in ("mivar", "mivard") for k in p["kind"])]
     ctx.extra["programs_with_instance_variables"] = sum(1 for p in progs if any(k in ("mivar", "mivard") for k in p["kind"]))
